@@ -106,6 +106,26 @@ func (g *Gen) txExt(kind string, hostile bool) STx {
 		t.A = A{"owner": who(), "name": g.pick(domNames), "amt": g.amount(10, 300, hostile)}
 	case "DOM_DELETE_SUB":
 		t.A = A{"owner": who(), "name": g.pick(subNames)}
+	case "BID_CREATE", "BID_COUNTER", "BID_CANCEL", "BID_BIDDER_DEC", "BID_OWNER_DEC", "BID_EXPIRE":
+		// free-standing requests of the bid application (mempool pools, mutation bases, random mixes): the conversation is
+		// drawn from a small space so that some requests meet an open one
+		o, b := who(), who()
+		asset := g.pick(append(append([]string{}, bidDomains...), bidExamples...))
+		at := "ons"
+		if asset == "ex1" {
+			at = "example"
+		}
+		t.A = A{"by": []string{o, b}[g.R.Intn(2)], "cowner": o, "casset": asset, "cbidder": b, "atype": at, "ch": int(g.curH) - g.R.Intn(3),
+			"amt": g.amount(10, 900, hostile), "dl": int64(g.curH+int64(g.rng(1, 6))) * 1000000, "dec": g.rng(1, 2)}
+		if kind == "BID_CREATE" {
+			t.A["by"] = b
+			if g.R.Intn(3) > 0 {
+				t.A["ch"] = 0
+			}
+		}
+		if hostile && g.hclass == "amt" && g.R.Intn(4) == 0 {
+			t.A["atype"], g.class = "unknown", "atype:unknown"
+		}
 	default:
 		return g.txEth(kind, hostile)
 	}
@@ -147,6 +167,13 @@ func familyExt(family, id string, g *Gen, blocks, maxTx int) *Scenario {
 		return g.Mixed(id, blocks, maxTx, OnsKinds)
 	case "olvm":
 		return g.OlvmStory(id, blocks)
+	case "bid":
+		if blocks < 16 {
+			blocks = 16
+		}
+		return g.BidStory(id, blocks)
+	case "bidmix":
+		return g.Mixed(id, blocks, maxTx, BidKinds)
 	case "rewards":
 		// long histories over the reward schedule: both reward years close (a block is about a million seconds, a year
 		// about thirty blocks), powers change, signers are absent, matured rewards are withdrawn by their owners and by others
@@ -233,6 +260,8 @@ func familyKindsExt(family string) []string {
 		return RewardKinds
 	case "olvm":
 		return []string{"OLVM", "SEND"}
+	case "bid", "bidmix":
+		return BidKinds
 	case "onsgov":
 		return append(append([]string{}, OnsKinds...), "PROP_CREATE", "PROP_FUND", "PROP_VOTE")
 	}
